@@ -198,7 +198,7 @@ fn split_state(lts: &Lts, s: &Snap, n: usize, rng: &mut StdRng, lower_only: bool
     // path decides its type: a lower directory (with a child) below an upper file is not part of the
     // union, and neither is a lower file below an upper directory.
     for (i, p) in u.iter().enumerate() {
-        if s[i][0] == 0 || !rng.gen_bool(0.35) {
+        if s[i][0] == 0 || !rng.gen_bool(0.5) {
             continue;
         }
         let first = match (0..n).find(|&l| layers[l][i][0] != 0) {
@@ -220,12 +220,19 @@ fn split_state(lts: &Lts, s: &Snap, n: usize, rng: &mut StdRng, lower_only: bool
         if s[i][0] == 1 {
             layers[l][i] = vec![2, 3]; // a file hidden below the directory of the union
         } else {
-            layers[l][i] = vec![1]; // a directory (with a child, if the universe has one) hidden below the file
-            if let Some((j, _)) = u.iter().enumerate().find(|(_, q)| q.len() == p.len() + 1 && q[..p.len()] == p[..]) {
-                layers[l][j] = if rng.gen_bool(0.5) { vec![2, 3] } else { vec![1] };
-                if layers[l][j][0] == 1 {
-                    if let Some((k, _)) = u.iter().enumerate().find(|(_, q)| q.len() == p.len() + 2 && q[..p.len() + 1] == u[j][..]) {
-                        layers[l][k] = vec![2, 3];
+            layers[l][i] = vec![1]; // a directory hidden below the file of the union ...
+            if rng.gen_bool(0.8) {
+                // ... with a whole hidden subtree: every descendant the universe has (inner ones as
+                // directories, the deepest ones as files), or only a random part of it
+                let part = rng.gen_bool(0.3);
+                for (j, q) in u.iter().enumerate() {
+                    if q.len() > p.len() && q[..p.len()] == p[..] {
+                        if part && rng.gen_bool(0.5) {
+                            continue;
+                        }
+                        let inner = u.iter().any(|r| r.len() > q.len() && r[..q.len()] == q[..]);
+                        ensure_parents(&mut layers[l], q);
+                        layers[l][j] = if inner { vec![1] } else if rng.gen_bool(0.7) { vec![2, 3] } else { vec![1] };
                     }
                 }
             }
